@@ -26,6 +26,21 @@ CHECKS = {
     ),
 }
 
+CHECKS["C15"] = dict(
+    level=MC, design="DESIGN.md section 6, C15",
+    text="Bounded symbolic model checking of the real evaluate_cfi_directives: canonical directive prefixes establish every "
+         "state shape (CFA unset/register+offset/expression, 0-2 register rules of every kind, initial vs current, save stack "
+         "depth 0-2, personality/LSDA, closed procedure) with all register numbers, offsets, columns, addresses and "
+         "displacements as z3 integers; then 1-2 (quick) / up to 3 (thorough) arbitrary directives from the full supported "
+         "alphabet, well- or ill-formed. Every yielded state, its location, the exception type of ill-formed sequences and "
+         "the independence of copies are compared with an independent reference interpreter on every path.",
+    note="Bounds: <= 3 distinct registers per row, stack depth <= 3, 1-2 blocks, escape operands one LEB128 byte, pointer "
+         "encodings enumerated. One step from every enumerated state shape covers longer sequences only as far as their "
+         "states have one of those shapes. Trusted: symx, z3, oracle/cfi_ref.py; ABI return column/byte order/pointer size "
+         "are inputs.",
+    technique="symbolic execution of the real Python code (symx replay DFS) + z3 LIA; differential against a reference interpreter",
+)
+
 NOT_YET = "check not built yet in this round (planned, see DESIGN.md section 6)"
 
 manifest = {
